@@ -121,6 +121,8 @@ fn rac_lsp_glue() {
                             // (3) apply like a client
                             let s = rac_client_index(&src, edit.range.start);
                             let e = rac_client_index(&src, edit.range.end);
+                            // LSP: "the end position of a range must not precede its start"; a client need not accept such an edit
+                            if (edit.range.end.line, edit.range.end.character) < (edit.range.start.line, edit.range.start.character) || s > e { continue; }
                             let mut got: Vec<char> = src[..s].to_vec();
                             got.extend(edit.new_text.chars());
                             got.extend_from_slice(&src[e..]);
